@@ -58,6 +58,44 @@ pub fn tok_run<D: Dom>(
     cx.add_run(&st, desc);
 }
 
+/// E-TOK over Σ_class with *every* function name and alias of the evaluator in turn as the only function
+/// token (with and without its bracket): what the per-name families enumerate by hand, exhaustively to `depth`
+pub fn tok_rotating<D: Dom>(cx: &RunCtx, depth: usize, kinds: &[Kind]) {
+    if !cx.wants(D::EV.name()) {
+        return;
+    }
+    let t0 = std::time::Instant::now();
+    let mut total = crate::report::Stats::default();
+    let mut names: Vec<&str> = Vec::new();
+    for (n, _) in refmodel::vocab::func_names(D::EV) {
+        if !names.contains(n) {
+            names.push(n);
+        }
+    }
+    for n in &names {
+        let cfg = TokCfg::<D> {
+            engine: "E-TOK Σ_class with every function name in turn".to_string(),
+            alphabet: sigma_class_with(D::EV, n),
+            depth,
+            unpruned_depth: 9,
+            pool_shallow: vec![D::default_at()],
+            shallow_depth: 0,
+            pool_deep: vec![D::default_at()],
+            kinds,
+            extra: None,
+            deadline: Some(cx.deadline(2400)),
+        };
+        let (st, _) = explore::<D>(&cfg, &cx.rec);
+        total.merge(&st);
+    }
+    eprintln!("[{}] E-TOK rotating names {}: {} names, depth {}, nodes {} ({:.1}s)", cx.prop, D::EV.name(), names.len(), depth, total.nodes, t0.elapsed().as_secs_f64());
+    cx.add_run(
+        &total,
+        serde_json::json!({"engine": "E-TOK Σ_class with every function name and alias in turn as the only function token (with and without its bracket)",
+            "evaluator": D::EV.name(), "names": names.len(), "depth": depth, "wall_s": t0.elapsed().as_secs_f64(), "stats": total.to_json()}),
+    );
+}
+
 macro_rules! for_each_dom {
     ($f:ident, $($args:expr),*) => {{
         $f::<F64>($($args),*);
@@ -89,6 +127,14 @@ pub fn c01(cx: &RunCtx) {
     crate::fam::critical_all(cx, &[Kind::Panic]);
     crate::fam::nested_slips_all(cx, &[Kind::Panic]);
     crate::fam::foreign_all(cx, &[Kind::Panic]);
+    {
+        let d = if quick(cx) { 4 } else { 5 };
+        tok_rotating::<F64>(cx, d, &[Kind::Panic]);
+        tok_rotating::<I64>(cx, d, &[Kind::Panic]);
+        tok_rotating::<Dec>(cx, d, &[Kind::Panic]);
+        tok_rotating::<Cpx>(cx, d, &[Kind::Panic]);
+        tok_rotating::<Num>(cx, d, &[Kind::Panic]);
+    }
     crate::tchecks::all_ops_trees(cx, &[Kind::Panic]);
 }
 
@@ -122,6 +168,13 @@ pub fn c03(cx: &RunCtx) {
     crate::fam::pumping_all(cx, &[Kind::MalformedOk, Kind::WellFormedErr, Kind::PrefixOk]);
     crate::fam::nested_slips_all(cx, &[Kind::MalformedOk, Kind::WellFormedErr, Kind::PrefixOk]);
     crate::fam::foreign_all(cx, &[Kind::MalformedOk, Kind::WellFormedErr, Kind::PrefixOk]);
+    let d = if quick(cx) { 4 } else { 5 };
+    let k = [Kind::MalformedOk, Kind::WellFormedErr, Kind::PrefixOk];
+    tok_rotating::<F64>(cx, d, &k);
+    tok_rotating::<I64>(cx, d, &k);
+    tok_rotating::<Dec>(cx, d, &k);
+    tok_rotating::<Cpx>(cx, d, &k);
+    tok_rotating::<Num>(cx, d, &k);
 }
 
 // ---------------------------------------------------------------- C04
